@@ -1,6 +1,7 @@
 package main
 
 import (
+	"encoding/json"
 	"fmt"
 	"time"
 
@@ -126,8 +127,38 @@ func genC03(c *ctx) {
 }
 
 // ---------------------------------------------------------------- C09
+// actionTextOracle: the textual form of action masks ("rwcdC", "*" = everything) means what it says: "*" grants every
+// defined action, each letter its own bit, and a mask printed by the library reads back as the same defined bits
+func actionTextOracle() string {
+	if a := resset.ActionFromString("*"); a&resset.ActionAll != resset.ActionAll {
+		return fmt.Sprintf(`ActionFromString("*") = %#x does not contain every defined action`, uint16(a))
+	}
+	for i, l := range "rwcdC" {
+		if a := resset.ActionFromString(string(l)); a != resset.Action(1)<<uint(i) {
+			return fmt.Sprintf("ActionFromString(%q) = %#x", string(l), uint16(a))
+		}
+	}
+	for m := resset.Action(0); m <= resset.ActionAll; m++ {
+		if back := resset.ActionFromString(m.String()); back&resset.ActionAll != m {
+			return fmt.Sprintf("mask %#x prints as %q which reads back as %#x", uint16(m), m.String(), uint16(back))
+		}
+	}
+	set := macaroon.NewCaveatSet()
+	if err := json.Unmarshal([]byte(`[{"type":"Apps","body":{"apps":{"7":"*"}}}]`), set); err != nil {
+		return "JSON Apps caveat with the mask \"*\" does not parse: " + err.Error()
+	}
+	org, app := uint64(1), uint64(7)
+	if err := set.Validate(&flyio.Access{OrgID: &org, AppID: &app, Action: resset.ActionAll}); err != nil {
+		return "an Apps caveat read from JSON with the mask \"*\" does not permit every defined action on that app: " + err.Error()
+	}
+	return ""
+}
+
 func genC09(c *ctx) {
 	s := aStream{c.set.Stream("resset", "Corr.RunA", "run", 1500)}
+	if f := actionTextOracle(); f != "" {
+		s.st.Add(&cs.Case{Coq: coqw.App("KAccessValid", m.Acc{Kind: "ABare", Valid: true}.Coq(), coqw.N(0)), Desc: map[string]any{"op": "action mask text"}, Class: "action-text", Nontrivial: true, OracleFail: f})
+	}
 	r := c.r
 	now := m.T{Sec: 1700000000}
 	masks := []uint16{0, 1, 3, 31, 0xffff}
